@@ -110,36 +110,114 @@ class GenRule:
                     lines.append("if %s(%s)!;" % (a, args))
         if eq:
             lines.append("if %s = %s;" % (name[eq[0]], name[eq[1]]))
-        stages = []   # expected flat sub-rule stages: (premise atoms, conclusions)
-        if kind == 0:
-            lines.append("then pa(%s);" % name[first])
-            stages.append((list(flat_premise), [("pa", [first])]))
-        elif kind == 1:
-            lines.append("then pb(%s, %s);" % (name[first], name[second]))
-            stages.append((list(flat_premise), [("pb", [first, second])]))
-        elif kind == 2:
-            lines.append("then %s = %s;" % (name[first], name[second]))
-            stages.append((list(flat_premise), [("A==A", [first, second])]))
-        else:
-            lines.append("then n := f(%s)!;" % name[first])
-            lines.append("then pa(n);")
-            stages.append((list(flat_premise), [("fDef", [first])]))
-            stages.append((list(flat_premise) + [("f", [first, "n"])], [("pa", ["n"])]))
+        concl_lines = {0: ["then pa(%s);" % name[first]],
+                       1: ["then pb(%s, %s);" % (name[first], name[second])],
+                       2: ["then %s = %s;" % (name[first], name[second])],
+                       3: ["then n := f(%s)!;" % name[first], "then pa(n);"]}[kind]
+        lines += concl_lines
         self.text = "rule %s {\n    %s\n}\n" % (self.name, "\n    ".join(lines))
-        # identify classes equated in the premise
-        rep = {c: c for c in classes}
-        if eq:
-            rep[eq[1]] = eq[0]
-        self.stages = []
-        for prem, concl in stages:
-            self.stages.append({
-                "premise": [[r, [rep.get(c, c) for c in args]] for r, args in prem],
-                "conclusion": [[r, [rep.get(c, c) for c in args]] for r, args in concl],
-            })
+        self.stages = expected_stages(flat_premise, eq, kind, first, second)
 
     def to_json(self):
         return {"name": self.name, "atoms": list(self.atoms), "assignment": list(self.assignment), "concl_kind": self.concl_kind,
                 "with_eq": self.with_eq, "stages": self.stages, "text": self.text}
+
+
+class _UF:
+    def __init__(self):
+        self.p = {}
+
+    def find(self, x):
+        self.p.setdefault(x, x)
+        while self.p[x] != x:
+            self.p[x] = self.p[self.p[x]]
+            x = self.p[x]
+        return x
+
+    def union(self, a, b):
+        a, b = self.find(a), self.find(b)
+        if a != b:
+            if str(b) < str(a):
+                a, b = b, a
+            self.p[b] = a
+            return True
+        return False
+
+
+def _congruence(uf, atoms):
+    """Close `uf` under single-valuedness of the function symbols among `atoms`."""
+    changed = True
+    while changed:
+        changed = False
+        seen = {}
+        for rel, args in atoms:
+            if SYMS[rel][0] != "func":
+                continue
+            key = (rel, tuple(uf.find(a) for a in args[:-1]))
+            r = uf.find(args[-1])
+            if key in seen and uf.find(seen[key]) != r:
+                if uf.union(seen[key], r):
+                    changed = True
+            seen[key] = uf.find(r)
+
+
+def _atom_set(uf, atoms):
+    out = []
+    for rel, args in atoms:
+        t = (rel, tuple(uf.find(a) for a in args))
+        if t not in out:
+            out.append(t)
+    return out
+
+
+def expected_stages(flat_premise, eq, kind, first, second):
+    """Reference flattening of a flat-shaped rule: what the front end must produce, up to renaming.
+
+    The premise is a structure closed under the premise equality and single-valuedness of functions; a then-statement is the
+    morphism into the structure extended by its content: tuples already present are not concluded again, equalities are
+    concluded for every pair of premise elements the extension identifies (its kernel), `f(x)!` concludes nothing when f(x) is
+    already defined."""
+    uf = _UF()
+    for _rel, args in flat_premise:
+        for a in args:
+            uf.find(a)
+    if eq:
+        uf.union(eq[0], eq[1])
+    _congruence(uf, flat_premise)
+    prem = _atom_set(uf, flat_premise)
+    f1 = uf.find(first)
+    f2 = uf.find(second)
+    stages = []
+
+    def st(premise, concl):
+        stages.append({"premise": [[r, list(a)] for r, a in premise], "conclusion": [[r, list(a)] for r, a in concl]})
+    if kind == 0:
+        c = ("pa", (f1,))
+        st(prem, [] if c in prem else [c])
+    elif kind == 1:
+        c = ("pb", (f1, f2))
+        st(prem, [] if c in prem else [c])
+    elif kind == 2:
+        uf2 = _UF()
+        uf2.p = dict(uf.p)
+        uf2.union(f1, f2)
+        _congruence(uf2, [(r, list(a)) for r, a in prem])
+        els = sorted({a for _r, args in prem for a in args}, key=str)
+        pairs = []
+        for i, a in enumerate(els):
+            for b in els[i + 1:]:
+                if uf2.find(a) == uf2.find(b):
+                    pairs.append(("A==A", (a, b)))
+        st(prem, pairs)
+    else:
+        existing = [a[1] for r, a in prem if r == "f" and a[0] == f1]
+        if existing:
+            c = ("pa", (existing[0],))
+            st(prem, [] if c in prem else [c])
+        else:
+            st(prem, [("fDef", (f1,))])
+            st(prem + [("f", (f1, "n"))], [("pa", ("n",))])
+    return stages
 
 
 def all_rules(max_vars=4):
